@@ -28,6 +28,10 @@ type lcCase struct {
 	Size  int    `json:"size"` // reader: size of the original data
 	DecJ  uint   `json:"dec_jobs"`
 	Ops   []lcOp `json:"ops"`
+	// reader: the source ends early after CutPermille/1000 of the stream (0 = complete stream) plus CutAdd bytes: the calls
+	// then fail, the counters must stay monotone and within the bytes the source really has
+	CutPermille int `json:"cut_permille,omitempty"`
+	CutAdd      int `json:"cut_add,omitempty"`
 }
 
 type cntListener struct{ n int }
@@ -148,9 +152,20 @@ func runReaderProgram(c *lcCase) (kind, detail string) {
 	if err != nil {
 		return "", "" // C01's business
 	}
+	cut := false
+	if c.CutPermille > 0 {
+		k := len(stream)*c.CutPermille/1000 + c.CutAdd
+		if k > 30 && k < len(stream) {
+			stream = stream[:k]
+			cut = true
+		}
+	}
 	src := &kz.Source{Data: stream}
 	r, err := kio.NewReader(src, c.DecJ)
 	if err != nil {
+		if cut {
+			return "", ""
+		}
 		return "constructor", err.Error()
 	}
 	pos := 0
@@ -195,16 +210,21 @@ func runReaderProgram(c *lcCase) (kind, detail string) {
 			}
 			pos += n
 			if err == io.EOF {
+				if cut {
+					return fail(i, op, "eof-on-truncated-stream", fmt.Sprintf("io.EOF at offset %d of %d although the source ended early", pos, len(data)))
+				}
 				if n != 0 || pos != len(data) {
 					return fail(i, op, "eof-premature", fmt.Sprintf("io.EOF with n=%d at offset %d of %d", n, pos, len(data)))
 				}
 				eof = true
 			} else if err != nil {
-				return fail(i, op, "read-error-valid-stream", err.Error())
+				if !cut {
+					return fail(i, op, "read-error-valid-stream", err.Error())
+				}
 			} else if eof && op.N > 0 {
 				return fail(i, op, "data-after-eof", fmt.Sprintf("(%d, nil) after io.EOF", n))
 			}
-			if n == 0 && err == nil && op.N > 0 {
+			if n == 0 && err == nil && op.N > 0 && !cut {
 				zero++
 				if zero > 3 {
 					return fail(i, op, "read-returns-nothing", "Read(n>0) returned (0, nil) repeatedly")
@@ -333,6 +353,12 @@ func c17(run *core.Run, replay string) {
 		} else {
 			c.Side = "reader"
 			c.Size = []int{0, 1, 15, 100, B - 1, B, B + 1, 3*B + 5, 9*B + 1, 20 * B}[r.Intn(10)]
+			if i%6 == 1 {
+				// the source ends early (any length, not only multiples of 8): errors are expected, the counters still behave
+				c.Size = []int{3*B + 5, 9*B + 1, 20 * B, 300 * B}[r.Intn(4)]
+				c.CutPermille = 1 + r.Intn(999)
+				c.CutAdd = r.Intn(16)
+			}
 			for k := 0; k < nops+6; k++ {
 				switch x := r.Intn(20); {
 				case x < 12:
